@@ -314,6 +314,50 @@ fn reject_cases(rt: &tokio::runtime::Runtime, r: &mut Report, op: &str, seed: u6
     }
 }
 
+/// Through two adapters in a row (the outer one's backend is s3s_aws::Proxy): documents the first adapter accepts although
+/// a member the model requires is missing (s3s keeps such members optional) must not reach the second backend as a
+/// shorter list - the conversion between the two type systems may refuse the request, it may not drop the element.
+fn two_hop_lists(rt: &tokio::runtime::Runtime, r: &mut Report) {
+    let cases: &[(&str, &str, &str, &str, usize)] = &[
+        ("PutBucketTagging", "PUT", "/th-bucket?tagging", "<Tagging><TagSet><Tag><Key>a</Key><Value>1</Value></Tag><Tag><Key>b</Key></Tag><Tag><Key>c</Key><Value>3</Value></Tag></TagSet></Tagging>", 3),
+        ("PutBucketTagging", "PUT", "/th-bucket?tagging", "<Tagging><TagSet><Tag><Value>1</Value></Tag><Tag><Key>b</Key><Value>2</Value></Tag></TagSet></Tagging>", 2),
+        ("PutObjectTagging", "PUT", "/th-bucket/k?tagging", "<Tagging><TagSet><Tag><Key>a</Key><Value>1</Value></Tag><Tag><Key>b</Key></Tag></TagSet></Tagging>", 2),
+        ("PutBucketTagging", "PUT", "/th-bucket?tagging", "<Tagging><TagSet><Tag><Key>a</Key><Value>1</Value></Tag><Tag><Key>b</Key><Value>2</Value></Tag><Tag><Key>c</Key><Value>3</Value></Tag></TagSet></Tagging>", 3),
+        (
+            "PutBucketLifecycleConfiguration",
+            "PUT",
+            "/th-bucket?lifecycle",
+            "<LifecycleConfiguration><Rule><ID>r1</ID><Status>Enabled</Status><Filter><Tag><Key>k</Key></Tag></Filter><Expiration><Days>1</Days></Expiration></Rule><Rule><ID>r2</ID><Status>Enabled</Status><Filter><Prefix>p</Prefix></Filter><Expiration><Days>2</Days></Expiration></Rule></LifecycleConfiguration>",
+            2,
+        ),
+    ];
+    for (op, method, uri, doc, n) in cases {
+        let log = EventLog::new();
+        let svc = two_hop_service(&log);
+        let mut req = RawRequest::new(method, uri).header("host", "s3.verif.example").header("content-length", &doc.len().to_string());
+        req.body = doc.as_bytes().to_vec();
+        let out = call_raw(rt, &svc, &req);
+        let events = log.take();
+        let be = backend_events(&events);
+        let Some(b) = be.first() else {
+            // refused somewhere on the way: nothing was truncated
+            r.held(format!("two-hops/{op}/refused"));
+            continue;
+        };
+        // the elements of the list as the second backend sees them
+        let dbg = b.input.debug();
+        let seen = if *op == "PutBucketLifecycleConfiguration" { dbg.matches("LifecycleRule {").count() } else { dbg.matches("Tag {").count() };
+        if seen == *n {
+            r.held(format!("two-hops/{op}/complete-list"));
+        } else {
+            r.violated(
+                format!("C02/two-hops/{op}/list-shortened-on-the-way"),
+                json!({"kind": "two-hops", "op": op, "document": doc, "elements_sent": n, "elements_at_the_second_backend": seen, "backend_input": dbg.chars().take(800).collect::<String>(), "outcome": out.to_json()}),
+            );
+        }
+    }
+}
+
 pub fn run(ctx: &RunCtx) -> i32 {
     let meta = CheckMeta {
         property: "C02",
@@ -364,6 +408,8 @@ pub fn run(ctx: &RunCtx) -> i32 {
             reject_cases(&rt, r, op, derive_seed(ctx.seed ^ 0x77, op, k));
         }
     });
+    let mut total = total;
+    two_hop_lists(&new_runtime(), &mut total);
     finish(ctx, &meta, &total)
 }
 
@@ -372,6 +418,7 @@ pub fn replay(v: &Value) -> i32 {
     let mut r = Report::new();
     let rt = new_runtime();
     match w["kind"].as_str().unwrap_or("") {
+        "two-hops" => two_hop_lists(&rt, &mut r),
         "looped" => {
             let case: LCase = serde_json::from_value(w["case"].clone()).unwrap_or_else(|e| harness_error(&format!("bad case: {e}")));
             judge_looped(&rt, &mut r, &case);
